@@ -83,10 +83,25 @@ def hook_end_post(kind, matrix, new_data, result):
     orig = attach.ORIG[kind + "_end"]
     X = np.asarray(matrix.design_matrix, dtype=float)
     advisory = m.foreign
-    for what, idx in row_multisets(train, rng):
+    sets = row_multisets(train, rng)
+    sets.append(("retyped-categoricals", sets[0][1]))
+    for what, idx in sets:
         sub = train.iloc[idx]
         if rng.random() < 0.5:
             sub = sub.reset_index(drop=True)
+        if what == "retyped-categoricals":
+            # the same values, but categorical columns arrive with another dtype: categories reordered,
+            # unused categories removed, or plain objects
+            sub = sub.copy()
+            for c in sub.columns:
+                if isinstance(sub[c].dtype, pd.CategoricalDtype):
+                    how = int(rng.integers(0, 3))
+                    if how == 0:
+                        sub[c] = sub[c].astype(object)
+                    elif how == 1:
+                        sub[c] = sub[c].cat.remove_unused_categories()
+                    else:
+                        sub[c] = sub[c].cat.reorder_categories(list(sub[c].cat.categories)[::-1])
         m.ev("self-evaluation")
         m.cls("rows:" + what)
         try:
